@@ -126,6 +126,19 @@ func tail(recs []addRec, n int) []addRec {
 type ledger[Q bqueue.Queueable] interface {
 	bqueue.Queuer[Q]
 	direct(Q) error
+	// setHook installs a function called inside a successful addition, after
+	// the height has advanced and before the call returns (additions are still
+	// serialised, so the height is exactly idx while it runs).
+	setHook(func(idx uint32))
+}
+
+type addHook struct{ f atomic.Pointer[func(uint32)] }
+
+func (h *addHook) setHook(f func(uint32)) { h.f.Store(&f) }
+func (h *addHook) fire(idx uint32) {
+	if f := h.f.Load(); f != nil && *f != nil {
+		(*f)(idx)
+	}
 }
 
 // fblk is the element of the fake ledger.
@@ -137,6 +150,7 @@ func (b *fblk) GetIndex() uint32 { return b.idx }
 // Blockchain.addLock does); Height is an atomic read. Both delay by seeded
 // amounts to widen the windows between the queue's Height and AddItem calls.
 type fakeChain struct {
+	addHook
 	addLock sync.Mutex
 	h       atomic.Uint32
 	log     *addLog
@@ -184,6 +198,7 @@ func (c *fakeChain) add(b *fblk, direct bool) error {
 	c.log.add(addRec{Idx: b.idx, Height: h, Direct: direct, OK: true})
 	c.delay()
 	c.h.Store(b.idx)
+	c.fire(b.idx)
 	return nil
 }
 
@@ -196,6 +211,7 @@ func (c *fakeChain) direct(b *fblk) error { return c.add(b, true) }
 // realChain is a real Blockchain behind the adapter the server uses, plus the
 // record of every AddBlock call.
 type realChain struct {
+	addHook
 	addLock sync.Mutex
 	bc      *core.Blockchain
 	log     *addLog
@@ -210,6 +226,9 @@ func (c *realChain) add(b *block.Block, direct bool) error {
 	c.log.add(addRec{Idx: b.Index, Height: h, Direct: direct, OK: err == nil})
 	if err == nil && c.bc.BlockHeight() != b.Index {
 		return fmt.Errorf("AddBlock(%d) returned nil but the height is %d", b.Index, c.bc.BlockHeight())
+	}
+	if err == nil {
+		c.fire(b.Index)
 	}
 	return err
 }
@@ -237,6 +256,8 @@ type queueResult struct {
 	sig, detail string
 	stalled     bool
 	quiet       bool
+	lostByHook  bool
+	hookPuts    int
 	stallAt     uint32
 	recs        []addRec
 	st          logStats
@@ -256,6 +277,7 @@ func driveQueue[Q bqueue.Queueable](qc queueCase, led ledger[Q], log *addLog, mk
 		mode = bqueue.Blocking
 	}
 	q := bqueue.New[Q](led, zap.NewNop(), nil, qc.Cache, nil, mode)
+	var panickedHook atomic.Value
 	runDone := make(chan any, 1)
 	go func() {
 		defer func() { runDone <- recover() }()
@@ -264,7 +286,42 @@ func driveQueue[Q bqueue.Queueable](qc queueCase, led ledger[Q], log *addLog, mk
 	// The last window of blocks is kept for the quiet phase at the end; the
 	// concurrent phase works on 1..N.
 	total := uint32(qc.N)
-	N := total - uint32(min(qc.Cache, qc.N/3))
+	K := uint32(min(qc.Cache, qc.N/4))
+	N := total - 2*K
+	// Turn-ahead producer: from inside a successful addition of block i (the
+	// height is i and cannot move meanwhile) it puts block i+cache, which is the
+	// last index of the window and lands in the very ring slot the queue is
+	// about to release for block i. In the concurrent phase it fires now and
+	// then, in the quiet phase always.
+	var (
+		hookLimit atomic.Uint32
+		hookProb  atomic.Int32 // fires when a draw of 0..99 is below it
+		hookPuts  atomic.Int64
+		hmu       sync.Mutex
+		hr        = rng.New(qc.Stream*64 + 62)
+	)
+	hookLimit.Store(N)
+	hookProb.Store(30)
+	led.setHook(func(idx uint32) {
+		i := idx + uint32(qc.Cache)
+		if i > hookLimit.Load() {
+			return
+		}
+		hmu.Lock()
+		d := hr.Intn(100)
+		hmu.Unlock()
+		if int32(d) >= hookProb.Load() {
+			return
+		}
+		defer func() {
+			if x := recover(); x != nil {
+				panickedHook.CompareAndSwap(nil, fmt.Sprintf("Put from inside AddItem: %v", x))
+			}
+		}()
+		_ = q.Put(mk(i, true))
+		hookPuts.Add(1)
+	})
+	defer led.setHook(nil)
 	var (
 		wg       sync.WaitGroup
 		puts     atomic.Int64
@@ -381,14 +438,19 @@ func driveQueue[Q bqueue.Queueable](qc queueCase, led ledger[Q], log *addLog, mk
 			break
 		}
 	}
-	// Quiet phase: nobody else touches the ledger. The whole next window is put
-	// in shuffled order with duplicates, the next block last; every element is
-	// inside the window when it is put, so after the missing next block has been
-	// offered the queue must drain to the last block without further help.
+	// Quiet phase: nobody else touches the ledger. The next window N+1..N+K
+	// is put in shuffled order with duplicates, the next block last; the window
+	// after it (up to total) is supplied only by the turn-ahead producer from
+	// inside the additions. Every element is inside the window when it is put
+	// and none is stale, so each Put must keep it, and after the missing next
+	// block has been offered the queue must drain to the last block without
+	// anything being offered a second time.
 	if !res.stalled && panicked.Load() == nil && total > N {
+		hookLimit.Store(total)
+		hookProb.Store(100)
 		qr := rng.New(qc.Stream*64 + 61)
 		var order []uint32
-		for i := N + 2; i <= total; i++ {
+		for i := N + 2; i <= N+K; i++ {
 			order = append(order, i)
 			if qr.Intn(4) == 0 {
 				order = append(order, i)
@@ -403,13 +465,33 @@ func driveQueue[Q bqueue.Queueable](qc queueCase, led ledger[Q], log *addLog, mk
 				puts.Add(1)
 			}
 		}()
+		// with cache above N/4 the turn-ahead producer cannot reach every block
+		// of the second window: those are put once the first window is drained
+		if K < uint32(qc.Cache) {
+			deadline := time.Now().Add(stepWait)
+			for led.Height() < N+K && time.Now().Before(deadline) {
+				time.Sleep(50 * time.Microsecond)
+			}
+			func() {
+				defer guard("Put")
+				for i := total; i > N+K; i-- {
+					_ = q.Put(mk(i, false))
+					puts.Add(1)
+				}
+			}()
+		}
 		deadline := time.Now().Add(stepWait)
 		for led.Height() < total && time.Now().Before(deadline) && panicked.Load() == nil {
 			time.Sleep(50 * time.Microsecond)
 		}
 		if h := led.Height(); h < total && panicked.Load() == nil {
 			res.stalled, res.stallAt, res.quiet = true, h, true
+			res.lostByHook = h+1 > N+K
 		}
+	}
+	res.hookPuts = int(hookPuts.Load())
+	if x := panickedHook.Load(); x != nil {
+		panicked.CompareAndSwap(nil, x)
 	}
 	// let the queue goroutine finish the elements it still holds, then read
 	// the bookkeeping of an idle queue
@@ -585,7 +667,14 @@ func queuePart(t *testing.T, run *ev.Run) {
 						}
 						stalls++
 					}
-					if stalls == 3 {
+					if stalls == 3 && res.quiet {
+						res.sig = "accepted-block-lost"
+						who := "the producer"
+						if res.lostByHook {
+							who = "the turn-ahead producer (from inside the addition of the block one ring turn below, into the slot being released)"
+						}
+						res.detail = fmt.Sprintf("three fresh attempts: block %d was put by %s while inside the window and not stale, nothing else touched the ledger, and the queue never offered it: height stays at %d of %d (cache %d)", res.stallAt+1, who, res.stallAt, j.qc.N, j.qc.Cache)
+					} else if stalls == 3 {
 						res.sig = "stall-below-highest-contiguous-block"
 						res.detail = fmt.Sprintf("three fresh attempts: height stays at %d of %d after the next block was re-offered (cache %d, quiet phase with the whole window queued: %v)", res.stallAt, j.qc.N, j.qc.Cache, res.quiet)
 					} else {
@@ -598,6 +687,7 @@ func queuePart(t *testing.T, run *ev.Run) {
 				run.Obs("queue_runs_"+j.qc.Ledger+"_"+j.qc.Mode, 1)
 				run.Obs("queue_puts", int64(res.puts))
 				run.Obs("queue_puts_far_ahead", int64(res.farAhead))
+				run.Obs("queue_puts_one_ring_turn_ahead_from_inside_additem", int64(res.hookPuts))
 				run.Obs("queue_additem_calls", int64(res.st.queueCalls))
 				run.Obs("queue_additem_ok", int64(res.st.queueOK))
 				run.Obs("queue_additem_at_or_below_height", int64(res.st.atOrBelow))
